@@ -103,4 +103,35 @@ def carrier_trace_records(embs, seed, start_id):
                 recs.append({"id": rid, "op": "commute", "t": tj, "eq": int(d < 1e-9), "diff_q": int(min(d * 1e9, 2e9))})
                 ctx[rid] = {**info, "what": f"{op}({m}) then doit() vs doit() then the same substitution: relative difference {d:.3g}"}
                 rid += 1
+    # plain functions as attribute values: two closures of one factory share module and qualified name but are different
+    # attributes (equality "exactly when class, arguments and non-SymPy attributes are equal")
+    for emb in embs:
+        cls = emb.cls
+        if not dataclasses.is_dataclass(cls):
+            continue
+        for f in dataclasses.fields(cls):
+            default = f.default
+            if f.metadata.get("sympify", True) or not inspect.isclass(default) or not dataclasses.is_dataclass(default):
+                continue
+
+            def factory(power, default=default):
+                def phsp(*a):
+                    return default(*a) ** power
+                return phsp
+
+            f1, f2 = factory(1), factory(2)
+            try:
+                with warnings.catch_warnings():
+                    warnings.simplefilter("ignore")
+                    probe = emb.build([x, y][: emb.ar], tuple("a" for _ in range(emb.na)), tuple(range(emb.ar)))
+                    attrs = {g.name: getattr(probe, g.name) for g in dataclasses.fields(cls) if not g.metadata.get("sympify", True)}
+                    o1, o1b, o2 = (cls(*probe.args, **{**attrs, f.name: fn}) for fn in (f1, f1, f2))
+            except Exception as ex:  # noqa: BLE001
+                skipped.append(f"{cls.__name__}.{f.name} (function value): {type(ex).__name__}: {str(ex)[:80]}")
+                continue
+            for a, b, what in ((o1, o1b, "the same function object"), (o1, o2, "two closures of one factory (same qualified name)")):
+                recs.append({"id": rid, "op": "eq", "t": T.to_json(project_generic(a)), "u": T.to_json(project_generic(b)), "eq": int(a == b), "hash": int(hash(a) == hash(b))})
+                ctx[rid] = {"cls": cls.__name__, "obj": f"{a} with {f.name}=<function>", "res": f"{b} with {f.name}=<function>: {what}", "what": what, "opname": "__eq__", "carrier": f.name,
+                            "function_pair": what}
+                rid += 1
     return recs, ctx, skipped
